@@ -3,6 +3,7 @@ package main
 import (
 	"bytes"
 	"fmt"
+	"math"
 	"os"
 	"os/signal"
 	"path/filepath"
@@ -160,6 +161,7 @@ func runEpisode(sc *Scenario) *Result {
 	}
 	sim := simcore.New(policy, stepCap)
 	sim.Deadline = time.Now().Add(episodeWallLimit())
+	sim.StallAfter = 15 * time.Second
 	sim.Stats.RecordChoices = true
 	for s := simcore.Site(0); s < siteCount; s++ {
 		sim.SetSite(s, false, 0)
@@ -242,6 +244,10 @@ func runEpisode(sc *Scenario) *Result {
 			finish()
 			res.Blocked = v.Blocked
 			return fail("violation", "deadlock", v.Detail+": "+describeBlocked(v.Blocked))
+		case "livelock":
+			finish()
+			res.Blocked = v.Blocked
+			return fail("violation", "livelock", v.Detail+": "+describeBlocked(v.Blocked))
 		default:
 			finish()
 			res.Blocked = v.Blocked
@@ -686,18 +692,61 @@ func (ep *episode) compareBatchSTL(jr *jobRun) {
 // asciiRoundTrip: a well-formed ASCII STL loads to the triangles it lists.
 func (ep *episode) asciiRoundTrip(jr *jobRun) Check {
 	p := jr.state.path + ".ascii.stl"
-	var b bytes.Buffer
-	g := func(v float64) string { return strconv.FormatFloat(v, 'g', -1, 64) }
-	b.WriteString("solid verif\n")
-	for _, t := range jr.state.tris {
-		n := [3]float64{0, 0, 0}
-		fmt.Fprintf(&b, " facet normal %s %s %s\n  outer loop\n", g(n[0]), g(n[1]), g(n[2]))
-		for k := 0; k < 3; k++ {
-			fmt.Fprintf(&b, "   vertex %s %s %s\n", g(t[k].X), g(t[k].Y), g(t[k].Z))
+	// the lexical style of the file is seeded: all of these are well-formed
+	r := simcore.NewRNG(jr.job.CoordSeed ^ 0xa5c11)
+	sep := pick(r, []string{" ", " ", "\t", "  ", " \t "})
+	indent := pick(r, []string{"", " ", "  ", "\t", "    "})
+	eol := pick(r, []string{"\n", "\n", "\r\n"})
+	trail := pick(r, []string{"", "", " ", "\t"})
+	numStyle := r.Intn(4)
+	blank := r.Intn(4) == 0
+	name := pick(r, []string{"verif", "", "a b c", "solid"})
+	g := func(v float64) string {
+		switch numStyle {
+		case 1: // exponent form, enough digits to round-trip
+			return strconv.FormatFloat(v, 'e', 17, 64)
+		case 2: // explicit plus sign
+			t := strconv.FormatFloat(v, 'g', -1, 64)
+			if v >= 0 && !math.Signbit(v) {
+				t = "+" + t
+			}
+			return t
+		case 3: // upper-case exponent
+			return strings.ToUpper(strconv.FormatFloat(v, 'e', 17, 64))
 		}
-		b.WriteString("  endloop\n endfacet\n")
+		return strconv.FormatFloat(v, 'g', -1, 64)
 	}
-	b.WriteString("endsolid verif\n")
+	var b bytes.Buffer
+	line := func(depth int, fields ...string) {
+		for i := 0; i < depth; i++ {
+			b.WriteString(indent)
+		}
+		b.WriteString(strings.Join(fields, sep))
+		b.WriteString(trail)
+		b.WriteString(eol)
+	}
+	if name == "" {
+		line(0, "solid")
+	} else {
+		line(0, "solid", name)
+	}
+	for _, t := range jr.state.tris {
+		line(1, "facet", "normal", g(0), g(0), g(1))
+		line(2, "outer", "loop")
+		for k := 0; k < 3; k++ {
+			line(3, "vertex", g(t[k].X), g(t[k].Y), g(t[k].Z))
+		}
+		line(2, "endloop")
+		line(1, "endfacet")
+		if blank {
+			b.WriteString(eol)
+		}
+	}
+	if name == "" {
+		line(0, "endsolid")
+	} else {
+		line(0, "endsolid", name)
+	}
 	if err := os.WriteFile(p, b.Bytes(), 0o644); err != nil {
 		return bad("harness", "write ascii: %v", err)
 	}
